@@ -40,6 +40,14 @@ impl Eigen {
         let norm = if norm == 0.0 { 1.0 } else { norm };
         y.iter().map(|a| a / norm).collect()
     }
+    /// the vector after `k` steps from the uniform start
+    pub fn iterate(&self, k: usize) -> Vec<f64> {
+        let mut x = vec![1.0 / self.n.max(1) as f64; self.n];
+        for _ in 0..k {
+            x = self.step(&x);
+        }
+        x
+    }
     /// reference iteration from the uniform start; returns for every iteration the L1 change
     pub fn changes(&self, max_iter: usize) -> Vec<f64> {
         let mut x = vec![1.0 / self.n.max(1) as f64; self.n];
